@@ -35,7 +35,7 @@ namespace dllexports
         void* call_data;
         sqfvm_log_callback callback;
 
-        target() : Logger() {}
+        target() : Logger(), user_data(nullptr), call_data(nullptr), callback(nullptr) {}
     };
     struct instance
     {
@@ -171,6 +171,8 @@ extern "C" {
         const int32_t parsing_failed = -3;
         const int32_t result_ok = 0;
         auto result = dllexports::with_instance_do(instance, [&](dllexports::instance& ref) -> int32_t {
+            // This call has no call data: its diagnostics must not carry the pointer of an earlier sqfvm_call
+            ref.logger->call_data = NULL;
             auto ppedStr = ref.runtime->parser_preprocessor().preprocess(
                 *ref.runtime, std::string_view(contents, length), { "dllexports"sv, {} });
 
